@@ -95,7 +95,9 @@ def injections():
                      'a.id > q.a.id', 's.a.id > q.a.id', 'q.a.id < a.id', 'b.id > s.b.id', 'a.x - q.a.x'):
             out.append(('missing-table', f'missing-table {form} {body}', ref(body)))
         for body in ('a.id > b.nosuch', 'a.nosuch > b.id', 'a.(id, nosuch) > b.(id, a_id)', 'a.(id, x) > b.(id, nosuch)', 'sa.nosuch < bb.id',
-                     's.a.x > a.id', 'public.a.b_id > b.id', 'a.id <> b.nosuch'):
+                     's.a.x > a.id', 'public.a.b_id > b.id', 'a.id <> b.nosuch',
+                     # sides of unequal length: the unknown column sits past the end of the shorter side
+                     'a.(id, nosuch) > b.id', 'a.id > b.(id, nosuch)', 'a.(id, x, nosuch) < b.(id, a_id)'):
             out.append(('missing-column', f'missing-column {form} {body}', ref(body)))
     for target in ('nosuch.id', 's.b.id', 'q.a.id', 'nope.x', 'q.aa.id', 's.bb.id'):
         for kind in ('>', '<', '-'):
